@@ -46,6 +46,7 @@ MUTANTS['C18'] = [
 ]
 
 MUTANTS['C14'] = [
+  ('catch-list-of-types-not-converted', [(C, "        if isinstance(exceptions, list):\n", "        if False:\n")]),
   ('batch-takes-user-indexerror-as-end', [(C, "                    if in_range:\n                        # Not the end of the input: the IndexError stems\n                        # from the evaluation of the example.\n                        raise\n                    break", "                    break")]),
   ('catch-except-exception', [(C, "                try:\n                    yield input_dataset[i]\n                except self.exceptions as e:", "                try:\n                    yield input_dataset[i]\n                except Exception as e:")]),
   ('catch-key-branch-except-exception', [(C, "                    yield k, input_dataset[k]\n                except self.exceptions as e:", "                    yield k, input_dataset[k]\n                except Exception as e:")]),
@@ -113,6 +114,7 @@ MUTANTS['C11'] = [
 ]
 
 MUTANTS['C01'] = [
+  ('wu-empty-list-refused', [(C, "        if len(self._lst) == 0:\n", "        if False:\n")]),
   ('batch-iter-input-iterator-on-the-object', [(C, "        current_batch = list()\n        for element in self.input_dataset:\n            current_batch.append(element)\n            if len(current_batch) >= self.batch_size:", "        current_batch = list()\n        self._it = iter(self.input_dataset)\n        while True:\n            try:\n                element = next(self._it)\n            except StopIteration:\n                break\n            current_batch.append(element)\n            if len(current_batch) >= self.batch_size:")]),
   ('prefetch-none-as-end-marker', [(P, "    unique_object = object()\n    exc_info = None\n", "    unique_object = None\n    exc_info = None\n")]),
   ('unbatch-skips-falsy-examples', [(C, "            for example in batch:\n                yield example", "            for example in batch:\n                if example or example == 0:\n                    yield example")]),
@@ -194,6 +196,7 @@ MUTANTS['C08'] = [
 ]
 
 MUTANTS['C20'] = [
+  ('getitem-forwards-selections-to-input', [(C, "        if not isinstance(item, (str, numbers.Integral)):\n            # A selection (slice, index list, ...), e.g. from the frozen copy", "        if False:\n            # A selection (slice, index list, ...), e.g. from the frozen copy")]),
   ('count-without-stopiteration-correction', [(C, "            except StopIteration:\n                self.hit_count[0] -= 1\n                return", "            except StopIteration:\n                return")]),
   ('copy-not-sharing-counters', [(C, "        new.time = self.time\n        new.hit_count = self.hit_count\n        return new", "        new.time = self.time\n        new.hit_count = list(self.hit_count)\n        return new")]),
   ('wraps-input_datasets-but-not-input_dataset', [(C, "        if hasattr(input_dataset, 'input_dataset'):\n            input_dataset.input_dataset = ProfilingDataset(\n                input_dataset.input_dataset)", "        if hasattr(input_dataset, 'input_dataset') and False:\n            input_dataset.input_dataset = ProfilingDataset(\n                input_dataset.input_dataset)")]),
@@ -229,6 +232,7 @@ MUTANTS['C05'] = [
 ]
 
 MUTANTS['C06'] = [
+  ('prefetch-catch-list-not-converted', [(C, "        if isinstance(catch_filter_exception, list):\n", "        if False:\n")]),
   ('map-iter-yield-from-builtin-map', [(C, "            for v in self.input_dataset:\n                yield self.map_function(v)\n\n    def keys(self):", "            yield from map(self.map_function, self.input_dataset)\n\n    def keys(self):")]),
   ('stp-exc-info-reraise-removed', [(P, "    if exc_info is not None:\n        raise exc_info[1].with_traceback(exc_info[2])", "    if exc_info is not None and False:\n        raise exc_info[1].with_traceback(exc_info[2])")]),
   ('stp-catches-only-exception', [(P, "        except BaseException:\n            # Save the exception and reraise it in the main thread", "        except Exception:\n            # Save the exception and reraise it in the main thread")]),
